@@ -7,7 +7,7 @@
    brute-force oracle of the check. *)
 From Coq Require Import List ZArith Bool Arith.
 From PV Require Import Model.Term Model.Subst Model.Unify Model.FD Model.State Proofs.FDProofs Proofs.FDPropProofs Model.Engine Proofs.UnifyProofs Proofs.DiseqProofs Proofs.MonoProofs Proofs.DenProofs Proofs.FDDen
-  Proofs.ElabAll Proofs.Acyc Proofs.AcycState Proofs.FDComp Proofs.FDEq Proofs.FDProg.
+  Proofs.ElabAll Proofs.Acyc Proofs.AcycState Proofs.FDComp Proofs.FDEq Proofs.FDProg Proofs.Complete0.
 Import ListNotations.
 Local Open Scope Z_scope.
 
@@ -118,6 +118,33 @@ Example C16_reading_atoms : forall defs th x d u v w,
 Proof.
   intros defs th x d u v w. split; intros H; inversion H; subst; auto;
     match goal with O : opaqueF _ |- _ => destruct O end.
+Qed.
+
+(* non-vacuity of the whole-program theorems (C16_whole_program, C17_no_solution_lost_flat): the program
+   x in 1..3, y in 1..3, x + 1 = y run from the initial state delivers an answer with the domains pruned to
+   1..2 and 2..3 and the constraint still stored; the valuation x = 1, y = 2 solves it and satisfies the reading *)
+Definition C16_exg : cgoal := fst (elab [] efuel BFS [(0%nat, TVar 0 false); (1%nat, TVar 1 false)]
+  (GConj [GDom (TVar 0 false) (Interval 1 3); GDom (TVar 1 false) (Interval 1 3); GRel RPlus [TVar 0 false; tnum 1; TVar 1 false]]) 2).
+Definition C16_exth : val := fun v => match v with O => tnum 1 | _ => tnum 2 end.
+Example C16_whole_program_example :
+  exists a rest k, next [] 100 0 (start [] sfuel C16_exg (empty_state 2)) = NAnswer a rest k /\
+    st_dstore a = [(0%nat, Interval 1 2); (1%nat, Interval 2 3)] /\
+    dwf C16_exg /\ flat C16_exg /\ GoodS (empty_state 2) /\ MstF C16_exth a /\ MstG C16_exth a /\ Den0 C16_exth C16_exg.
+Proof.
+  eexists. eexists. eexists. split; [vm_compute; reflexivity|]. split; [reflexivity|].
+  split; [cbn; repeat split; exact I|]. split; [cbn; repeat split; exact I|].
+  split; [split; [constructor|apply WFD_empty]|].
+  assert (M : MstG C16_exth (mkState [] [(0%nat, KPlus (TVar 0 false) (TVal (LNum 1)) (TVar 1 false))] [(0%nat, Interval 1 2); (1%nat, Interval 2 3)] [UWith 0] 2 1)).
+  { split; [intros x t []|]. split.
+    - intros i c [H|[]]. inversion H; subst. exists 1%Z, 1%Z, 2%Z. unfold numv, in_isize, isize_min, isize_max. cbn. repeat split; try reflexivity; Lia.lia.
+    - intros x d [H|[H|[]]]; inversion H; subst; [exists 1%Z|exists 2%Z]; split; try reflexivity; cbn; Lia.lia. }
+  split; [|split; [exact M|]].
+  - destruct M as [A [B C]]. split; [exact A|]. split; [|exact C]. intros i c Hin. specialize (B i c Hin).
+    destruct Hin as [H|[]]. inversion H; subst. destruct B as [a [b [r [H1 [H2 [H3 [H4 _]]]]]]]. exists a, b, r. auto.
+  - unfold C16_exg. vm_compute fst. repeat constructor; cbn.
+    + exists 1%Z. split; [reflexivity|cbn; Lia.lia].
+    + exists 2%Z. split; [reflexivity|cbn; Lia.lia].
+    + exists 1%Z, 1%Z, 2%Z. unfold numv, in_isize, isize_min, isize_max. cbn. repeat split; try reflexivity; Lia.lia.
 Qed.
 
 Check C16_plusfd_ground : forall rcs rc id st u v w a b r,
